@@ -61,7 +61,7 @@ def install_lua(I, prog, scripts, calls):
     """scripts: tag byte -> spec (kind, text); calls: list receiving one dict per validate() call."""
     st = I.stubs
     # LuaState = (script loaded last, script whose `validate` is the current global): globals persist in one VM
-    st['lua_from_env'] = lambda I2, a, ci, dt: Struct('Lua', (Ref(Cell(Struct('LuaState', (None, None))), ()),))
+    st['lua_from_env'] = lambda I2, a, ci, dt: Struct('Lua', (Ref(Cell(Struct('LuaState', (None, None, 0))), ()),))
 
     def spec_of(I2, path):
         b = as_sstr(I2, path).b
@@ -86,7 +86,7 @@ def install_lua(I, prog, scripts, calls):
             lua = I2.load(lua)
         t = script_tag(I2, a[1])
         cur = I2.load(lua.f[0])
-        I2.store(lua.f[0], Struct('LuaState', (t, cur.f[1])))
+        I2.store(lua.f[0], Struct('LuaState', (t, cur.f[1], cur.f[2])))
         return Struct('LuaChunk', (lua, t))
     st['Lua::load'] = load
 
@@ -98,7 +98,7 @@ def install_lua(I, prog, scripts, calls):
             # running the chunk defines the global function `validate` (it stays defined in this VM)
             lua = a[0].f[0]
             cur = I2.load(lua.f[0])
-            I2.store(lua.f[0], Struct('LuaState', (cur.f[0], t)))
+            I2.store(lua.f[0], Struct('LuaState', (cur.f[0], t, cur.f[2])))
         return ReadyFut(Ok(UNIT))
     st['LuaChunk::exec_async'] = exec_async
     st['Chunk::exec_async'] = exec_async
@@ -119,7 +119,7 @@ def install_lua(I, prog, scripts, calls):
             t = I2.load(tb.f[1][1]).f[1]
             if t is None:
                 return Err(Opaque('LuaError', 'error converting Lua nil to function'))
-            return Ok(Struct('LuaFunction', (t,)))
+            return Ok(Struct('LuaFunction', (t, tb.f[1][1])))
         raise Unmodelled('LuaTable::get(%r)' % key)
     st['LuaTable::get'] = table_get
     st['Table::get'] = table_get
@@ -161,6 +161,14 @@ def install_lua(I, prog, scripts, calls):
         ctx, content = args.f[0], args.f[1]
         calls.append(dict(tag=t, ctx=snapshot(I2, ctx), content=tuple(as_sstr(I2, content).b)))
         sp = scripts[t]
+        ncalls = 1
+        if len(fn.f) > 1 and fn.f[1] is not None:
+            vm = I2.load(fn.f[1])
+            ncalls = vm.f[2] + 1
+            I2.store(fn.f[1], Struct('LuaState', (vm.f[0], vm.f[1], ncalls)))
+        if sp[0] == 'stateful':
+            # a script that keeps a counter outside validate(): what it returns tells how often this VM was used
+            sp = ('string', tuple(b'call%d' % ncalls))
         if sp[0] == 'runtime_error':
             return ReadyFut(Err(Opaque('LuaError', 'runtime error')))
         if sp[0] == 'nonstring':
@@ -172,6 +180,7 @@ def install_lua(I, prog, scripts, calls):
         return ReadyFut(from_lua(I2, ci, val))
     st['LuaFunction::call_async'] = call_async
     st['Function::call_async'] = call_async
+    st['Lua::unpack'] = lambda I2, a, ci, dt: from_lua(I2, ci, a[1])
     st['LuaString::to_str'] = lambda I2, a, ci, dt: Ok(as_sstr(I2, I2.deref_value(a[0]).f[0]))
     st['String::to_str'] = st['LuaString::to_str']
     st['LuaValue::type_name'] = lambda I2, a, ci, dt: SStr(tuple(I2.deref_value(a[0]).vname.lower().encode()), -1, 0)
@@ -185,7 +194,7 @@ def from_lua(I, ci, val):
     """mlua's FromLua for the result type the call site asks for (first generic argument of
     call_async): Value = as is; String / Option<String> accept Lua strings and, by Lua's coercion,
     numbers; nil is None for Option and an error otherwise; every other type is a conversion error."""
-    m = re.search(r'call_async::<(.*)$', ci.raw)
+    m = re.search(r'(?:call_async|unpack|call)::<(.*)$', ci.raw)
     ty = 'LuaValue'
     if m:
         depth = 0
@@ -287,7 +296,8 @@ def run_task(task):
                 info = dict(name=name, file=('d/f%d.py' % fi).encode(), lua=bs['lua'], line=line, expected_content=expected,
                             raw=tuple(content))
                 if bs['lua']:
-                    attrs_d['check-lua'] = bytes([tag]) + b'.lua'
+                    mytag = bs.get('script_tag') or tag
+                    attrs_d['check-lua'] = bytes([mytag]) + b'.lua'
                     if bs.get('extra_attr'):
                         val = tuple(I.fresh_byte('%s_a%d' % (name, i), VAL_ALPHA) for i in range(2))
                         attrs_d['owner'] = SString(val, I.new_alloc())
@@ -296,13 +306,14 @@ def run_task(task):
                     kind = bs['outcome']
                     if kind == 'string':
                         txt = tuple(I.fresh_byte('%s_r%d' % (name, i), MSG_ALPHA) for i in range(bs.get('msg_len', 2)))
-                        scripts[tag] = ('string', txt)
+                        scripts[mytag] = ('string', txt)
                     elif kind == 'nonstring':
-                        scripts[tag] = ('nonstring', bs.get('vtype', 'Integer'))
+                        scripts[mytag] = ('nonstring', bs.get('vtype', 'Integer'))
                     else:
-                        scripts[tag] = (kind,)
-                    info.update(tag=tag, outcome=scripts[tag], attrs=dict(attrs_d))
-                    tag += 1
+                        scripts[mytag] = (kind,)
+                    info.update(tag=mytag, outcome=scripts[mytag], attrs=dict(attrs_d), script=chr(mytag) + '.lua')
+                    if not bs.get('script_tag'):
+                        tag += 1
                 # tags of blocks with an extra attribute end on the next line (start line != end line)
                 blk = mk_block(prog, I, attrs_d, (line, 3), (line + (1 if bs.get('extra_attr') else 0), 20), (start, start + len(content)), (line + 1, 30), (line + 3, 1))
                 bwcs.append(mk_bwc(prog, blk))
@@ -311,7 +322,12 @@ def run_task(task):
             files.append((('d/f%d.py' % fi).encode(), tuple(src), bwcs))
         ctx = mk_context(prog, I, files)
         install_lua(I, prog, scripts, calls)
-        I.task_order = lambda n, step: I.concretize(I.fresh_int('ord%d_%d' % (step, n), 0, n - 1), 'task order') if n > 1 else 0
+        if task.get('order') == 'first':          # many tasks: a fixed completion order instead of all n! of them
+            I.task_order = lambda n, step: 0
+        elif task.get('order') == 'last':
+            I.task_order = lambda n, step: n - 1
+        else:
+            I.task_order = lambda n, step: I.concretize(I.fresh_int('ord%d_%d' % (step, n), 0, n - 1), 'task order') if n > 1 else 0
         holder.update(blocks=blocks, calls=calls, files=files, I=I)
         vbox = Ref(Cell(Struct('CheckLuaValidator', ())), ())
         return I.call_fn(f_run, [ctx, VecVal(()), VecVal([vbox])])
@@ -326,7 +342,9 @@ def run_task(task):
             e = dict(name=b['name'], file=b['file'].decode(), lua=b['lua'], line=b['line'], raw=model_bytes(m, b['raw']).decode('latin1'))
             if b['lua']:
                 oc = b['outcome']
-                e.update(script=chr(b['tag']) + '.lua', outcome=[oc[0]] + ([model_bytes(m, oc[1]).decode('latin1')] if oc[0] == 'string' else list(oc[1:])),
+                if oc[0] == 'stateful':
+                    oc = ('stateful',)
+                e.update(script=(b.get('script') or chr(b['tag']) + '.lua'), outcome=[oc[0]] + ([model_bytes(m, oc[1]).decode('latin1')] if oc[0] == 'string' else list(oc[1:])),
                          expected_content=model_bytes(m, b['expected_content']).decode('latin1'),
                          attrs={k: (model_bytes(m, v.b).decode('latin1') if isinstance(v, SString) else bytes(v).decode('latin1')) for k, v in b['attrs'].items()})
             w['blocks'].append(e)
@@ -363,6 +381,9 @@ def run_task(task):
             continue
         for b in blocks:
             mine = [c for c in calls if c['tag'] == b['tag']]
+            if sum(1 for x in blocks if x['tag'] == b['tag']) > 1:
+                # blocks sharing one script: tell their calls apart by ctx.line
+                mine = [c for c in mine if dict((k, v) for k, v in c['ctx'] if isinstance(k, bytes)).get(b'line') == b['line']]
             if len(mine) != 1:
                 viol(I, True, 'not-exactly-one-call', 'block %s: validate() called %d times' % (b['name'], len(mine)))
                 continue
@@ -389,6 +410,8 @@ def run_task(task):
             viol(I, True, 'stray-call', '%d calls for no check-lua block' % len(stray))
         for b in blocks:
             got = [v for v in res.get(b['file'], []) if v['start'][0] == b['line']]
+            if b['outcome'][0] == 'stateful':
+                b = dict(b, outcome=('string', tuple(b'call1')))      # every block has an interpreter of its own
             if b['outcome'][0] == 'nil':
                 if got:
                     viol(I, True, 'nil-reported', 'block %s: validate() returned nil but %d diagnostics' % (b['name'], len(got)))
@@ -437,6 +460,7 @@ def lua_error(prog, I, d):
 # ------------------------------------------------------------------ real binary: real Lua scripts that echo their arguments
 
 SCRIPT = {
+    'stateful': 'local n = 0\nfunction validate(ctx, content)\n  echo(ctx, content)\n  n = n + 1\n  return "call" .. n\nend\n',
     'nil': 'function validate(ctx, content)\n  echo(ctx, content)\n  return nil\nend\n',
     'string': 'function validate(ctx, content)\n  echo(ctx, content)\n  return MSG\nend\n',
     'load_error': 'function validate(ctx, content)\n  return nil\nend\nerror("boom at load")\n',
@@ -486,6 +510,7 @@ def real_files(w, d):
     for b in w['blocks']:
         per_file.setdefault(b['file'], []).append(b)
     exp_calls = []
+    msgs = []
     fail = False
     diags = {}
     line_of = {}
@@ -524,10 +549,11 @@ def real_files(w, d):
                 attrs = dict(b['attrs'])
                 parts = ','.join('%s=%s' % (lua_q(k), lua_q(attrs[k])) for k in sorted(attrs))
                 exp_calls.append('CALL|%s|%d|%s|%s|END' % (lua_q(rn), cur_line, parts, lua_q(b['expected_content'])))
-                if oc[0] == 'string':
+                if oc[0] in ('string', 'stateful'):
                     diags[rn] = diags.get(rn, 0) + 1
+                    msgs.append(oc[1] if oc[0] == 'string' else 'call1')
         files[rn] = ('\n'.join(lines) + '\n').encode('latin1')
-    return files, exp_calls, dict(fail=fail, diags=diags)
+    return files, exp_calls, dict(fail=fail, diags=diags, messages=sorted(msgs))
 
 
 def check_real(binary, w):
@@ -562,7 +588,9 @@ def check_real(binary, w):
         ok = r['code'] != 0 and diags is None
     else:
         got = {k: len(v) for k, v in (diags or {}).items()}
-        ok = got == exp['diags'] and r['code'] == (1 if exp['diags'] else 0) and got_calls == sorted(exp_calls)
+        got_msgs = sorted((d.get('data') or {}).get('lua_error', '') for v in (diags or {}).values() for d in v)
+        ok = got == exp['diags'] and r['code'] == (1 if exp['diags'] else 0) and got_calls == sorted(exp_calls) \
+            and got_msgs == [m.encode('latin1').decode('utf-8', 'replace') for m in exp['messages']]
     return dict(ok=ok, observed=dict(code=r['code'], diags=diags, stderr=r['stderr'][-300:], calls=got_calls), expected=dict(exp, calls=sorted(exp_calls)), files=files)
 
 
@@ -597,6 +625,17 @@ def tasks_for(tier):
             ks[pos] = fk
             T.append(dict(files=[[B(outcome=ks[0]), B(outcome=ks[1])], [B(outcome=ks[2])]]))
     T.append(dict(files=[[B(outcome='string'), B(outcome='string')], [B(outcome='nil')]]))
+    # several blocks (same file / different files) checked by one script that keeps state between calls
+    S = lambda **kw: dict(B(outcome='stateful', **kw), script_tag=83)
+    T.append(dict(files=[[S(), S(lead=1)]]))
+    T.append(dict(files=[[S()], [S(), B(outcome='nil')]]))
+    # many blocks (more than any plausible in-flight limit), one failing script, two fixed completion orders
+    for n, bad, fk in ((34, 0, 'runtime_error'), (34, 33, 'no_validate'), (12, 5, 'nonstring')):
+        for order in ('first', 'last'):
+            blocks = [B(outcome='nil', core=1) for _ in range(n)]
+            blocks[bad] = B(outcome=fk, core=1)
+            T.append(dict(files=[blocks], order=order))
+    T.append(dict(files=[[B(outcome='string', core=1) for _ in range(12)]], order='first'))
     if tier == 'thorough':
         for ks in itertools.product(['nil', 'string', 'load_error'], repeat=3):
             T.append(dict(files=[[B(outcome=ks[0], core=3, extra_attr=True), B(outcome=ks[1], trail=2, pattern='group')], [B(lua=False), B(outcome=ks[2], lead=2)]]))
@@ -650,7 +689,7 @@ def main(tier):
             msg = 'real %s vs expected %s' % (json.dumps(r['observed'])[:500], json.dumps(r['expected'])[:400])
             agg.validation_failures.append(msg)
             agg.engine_errors.append({'engine_error': 'translator validation: ' + msg})
-    bounds = dict(tasks=len(tasks), blocks='1..3 check-lua blocks (4 thorough) over 1..2 files, optional plain block between',
+    bounds = dict(tasks=len(tasks), blocks='1..3 check-lua blocks (4 thorough) over 1..2 files, optional plain block between, every completion order; plus 12-34 blocks with one failing script under two fixed completion orders',
                   symbolic='content 0-3 bytes over [y space " \' \\] with 0-2 blanks (space, tab, LF) around; returned string 0-3 bytes over [m space " LF]; extra attribute value 2 bytes',
                   outcomes=['nil', 'string'] + list(FAIL_KINDS), completion_orders='all (forked choice at every join)')
     return finish(
@@ -658,7 +697,7 @@ def main(tier):
         assumptions=['mlua / the Lua VM is a contract stub (see module docstring); what a real script computes is outside — the per-run validation runs real scripts that log their arguments (BLOCKWATCH_LUA_MODE=safe) through the real binary',
                      'tokio: a spawned task runs to completion when the JoinSet is polled; the completion order is a forked choice (all orders); interleaving inside tasks, 1..16 worker threads, CPU affinity and busy-loop timing are outside',
                      'two regex forms for check-lua-pattern (reference matcher mirsym/rexmodel.py)',
-                     'up to 4 scripted blocks, not 40'],
+                     'all completion orders only up to 4 scripted blocks; 12-34 blocks under two fixed orders'],
         stubs=['mlua::{Lua, Chunk, Table, Function, Value, String}', 'tokio::{JoinSet, Runtime}', 'std::fs::read_to_string', 'lua_from_env (decided in C17)'],
         must_cover=['decided', 'failing script', 'two or more Lua blocks', 'pattern'],
         explanation='calls recorded by the call_async stub (ctx.file, ctx.line, ctx.attrs, content) and the diagnostics of validators::run compared with the reference per block on every path and completion order')
